@@ -845,6 +845,13 @@ def evaluate_history(ctx, drv, cases):
         bad = None
         if not so['unchanged']:
             bad = ('an export changed the metainfo of the object', [n for n, _ in so['outs']])
+        elif bool(m['hyp']) and so['vok'] and so['y'] is None and 'ok' in m['dump']:
+            # "dumping a valid torrent … yields": the object passes validate(), the model (under the theorem's hypothesis on the
+            # current value: UTF-8 keys, private flag, date) says the dump exists - a dump() that raises here is not a harmless
+            # deviation of the model, it is the round trip failing at its first step (seed C05-6a: one container reachable by
+            # two paths was reported as a cyclic reference)
+            bad = ('t.dump() raised for a torrent that passes validate() (stage %d, after %s)' % (si, ek),
+                   {'error': so.get('y_err'), 'model_dump': _short(m['dump'], 120)})
         elif hyp:
             h = so['span_sha1']
             y = so['y']
